@@ -26,6 +26,11 @@ def run(F, R, tier):
     kinds = ("K1", "K2", "K3", "K4")
     seen1 = run_pps(F, R, "R9.4", ENTRY, kinds, CHA, registry_names=REGISTRY, armed=armed, floor_fns=700, floor_sites=70,
                     what=": the interpreter would crash instead of returning a located error")
+    import json, os
+    from .common import recursion_rule
+    tab = json.load(open(os.path.join(os.path.dirname(os.path.dirname(os.path.dirname(os.path.abspath(__file__)))), "tables", "recursion_audited.json")))
+    nrec = recursion_rule(F, R, "R9.7", "the interpreter reachable from VM::run", seen1, {"texlang.lib", "texlang_stdlib.lib", "texcraft_stdext.lib", "common.lib"}, tab)
+    R.floor("R9.7", "recursion cycles among the reachable interpreter functions", nrec, 4)
     if tier == "thorough":
         # second registry: the texcraft binary's state (adds \\font, \\nullfont, the repl commands and \\dump);
         # only functions not already covered through the StdLibState registry are examined, in the interpreter crates
